@@ -129,6 +129,12 @@ contract(SOL + "growth_stage.py", "growth_stage",
          requires=["implies(growing_season, Crop.CalendarType == 1 or Crop.CalendarType == 2)"],
          returns=[("NewCond", ("Param", "InitCond"))],
          ensures=[("C13.growth_stage_range", "implies(growing_season, 1 <= NewCond.growth_stage and NewCond.growth_stage <= 4)"),
+                  # the stage (which selects the soil-moisture threshold of irrigation strategy 1) follows the crop calendar in the crop's own time
+                  # unit: days after planting minus delayed days, or cumulative degree days minus delayed degree days
+                  ("C13.growth_stage_follows_crop_calendar",
+                   "implies(growing_season, NewCond.growth_stage == "
+                   "ite({t} <= Crop.Canopy10Pct, 1, ite({t} <= Crop.MaxCanopy, 2, ite({t} <= Crop.Senescence, 3, 4))))".format(
+                       t="ite(Crop.CalendarType == 1, old(InitCond.dap) - old(InitCond.delayed_cds), old(InitCond.gdd_cum) - old(InitCond.delayed_gdds))")),
                   ("C13.growth_stage_zero_out_of_season", "implies(not growing_season, NewCond.growth_stage == 0)"),
                   ("C12.growth_stage_same_object", "same(NewCond, InitCond)")],
          assigns=["InitCond.growth_stage"],
